@@ -4,6 +4,7 @@ import (
 	"context"
 	"fmt"
 	"os"
+	"reflect"
 	"runtime"
 	"sort"
 	"strconv"
@@ -13,6 +14,7 @@ import (
 	"testing"
 	"testing/synctest"
 	"time"
+	"unsafe"
 
 	"github.com/ali-assar/NATS-Leader-Election/leader"
 	"github.com/nats-io/nats.go"
@@ -35,6 +37,7 @@ type Sim struct {
 	tearing    atomic.Bool
 	teardownCh chan struct{}
 	diceIdx    int
+	nextObj    int
 	opID       int
 	apiID      int
 	watchID    int
@@ -125,7 +128,10 @@ type connProvider struct{ provider }
 func (p *connProvider) NATSConnection() *nats.Conn { return p.o.conn }
 
 func (s *Sim) newObject(in *instRT) *objRT {
-	o := &objRT{s: s, in: in, idx: len(s.objs), gen: len(in.objs)}
+	s.mu.Lock()
+	o := &objRT{s: s, in: in, idx: s.nextObj, gen: len(in.objs)}
+	s.nextObj++
+	s.mu.Unlock()
 	sp := in.spec
 	cfg := leader.ElectionConfig{
 		Bucket: "bucket", Group: sp.Group, InstanceID: sp.ID, TTL: s.plan.TTL, HeartbeatInterval: s.plan.H,
@@ -299,12 +305,19 @@ func (s *Sim) doAction(a *Action) {
 				s.sleepI(1)
 			}
 		}
-		if o != nil && o.stopFailed {
+		fresh := o == nil
+		if o != nil {
 			s.mu.Lock()
-			s.tr.ExcludedRestartAfterFailedStop++
+			if o.stopFailed {
+				s.tr.ExcludedRestartAfterFailedStop++
+				fresh = true
+			}
+			if a.NewObject && o.stopped {
+				fresh = true
+			}
 			s.mu.Unlock()
 		}
-		if o == nil || (a.NewObject && o.stopped) || o.stopFailed {
+		if fresh {
 			o = s.newObject(s.insts[a.Inst])
 			if o == nil {
 				return
@@ -334,14 +347,20 @@ func (s *Sim) doAction(a *Action) {
 			o.startGen++
 		}
 		s.mu.Unlock()
-		if err == nil && o.conn != nil && o.dispatch == nil {
+		s.mu.Lock()
+		needDispatch := err == nil && o.conn != nil && o.dispatch == nil
+		if needDispatch {
 			o.dispatch = make(chan func(), 64)
+		}
+		s.mu.Unlock()
+		if needDispatch {
+			dispatch := o.dispatch
 			s.wg.Add(1)
 			go func() {
 				defer s.wg.Done()
 				for {
 					select {
-					case f := <-o.dispatch:
+					case f := <-dispatch:
 						f()
 					case <-s.teardownCh:
 						return
@@ -393,11 +412,25 @@ func (s *Sim) doAction(a *Action) {
 		if err != nil && err != leader.ErrAlreadyStopped {
 			o.stopFailed = true
 		}
+		if o.opsInFlight > 0 || (a.Kind == ActStop && s.now()-r.CallT >= 5*time.Second) {
+			// the stop call gave up waiting for the election's goroutines (its 5s / caller's time-out):
+			// restarting this object would reuse its WaitGroup while the previous Wait is still pending
+			// (known finding C09/C20); real callers create a new election instead, and so does the harness
+			if !s.plan.AllowUncleanRestart {
+				o.stopFailed = true
+			}
+		}
 		s.mu.Unlock()
 		s.apiEnd(o, r, err == nil, err)
 	case ActDisconnect, ActReconnect, ActClosed:
 		o := s.current(a.Inst)
-		if o == nil || o.conn == nil || o.dispatch == nil {
+		if o == nil || o.conn == nil {
+			return
+		}
+		s.mu.Lock()
+		dispatch := o.dispatch
+		s.mu.Unlock()
+		if dispatch == nil {
 			return
 		}
 		s.mu.Lock()
@@ -406,11 +439,11 @@ func (s *Sim) doAction(a *Action) {
 		s.mu.Unlock()
 		kind := a.Kind
 		select {
-		case o.dispatch <- func() {
+		case dispatch <- func() {
 			var h nats.ConnHandler
 			switch kind {
 			case ActDisconnect:
-				h = o.conn.Opts.DisconnectedCB
+				h = disconnectedCB(o.conn)
 			case ActReconnect:
 				h = o.conn.ReconnectHandler()
 			case ActClosed:
@@ -551,7 +584,7 @@ func Run(t *testing.T, p *Plan) *Trace {
 	tr := &Trace{Plan: p}
 	caseBegin()
 	defer caseEnd()
-	synctest.Test(t, func(t *testing.T) {
+	runBubble(t, func() {
 		s := &Sim{plan: p, tr: tr, t0: time.Now(), teardownCh: make(chan struct{})}
 		tr.StartAt = s.t0
 		s.store = refkv.New(p.TTL, time.Now)
@@ -571,6 +604,9 @@ func Run(t *testing.T, p *Plan) *Trace {
 				steps = append(steps, step{at: at})
 			}
 		}
+		for i := range p.Hammers {
+			s.startHammer(&p.Hammers[i])
+		}
 		sort.SliceStable(steps, func(i, j int) bool { return steps[i].at < steps[j].at })
 		for _, st := range steps {
 			if st.at >= p.Horizon {
@@ -580,6 +616,13 @@ func Run(t *testing.T, p *Plan) *Trace {
 				time.Sleep(d)
 			}
 			vclock.Store(int64(s.now()))
+			if p.NoQuiesce {
+				if st.act != nil {
+					s.wg.Add(1)
+					go s.doAction(st.act)
+				}
+				continue
+			}
 			synctest.Wait()
 			if st.act == nil {
 				s.snapshot("grid")
@@ -595,8 +638,10 @@ func Run(t *testing.T, p *Plan) *Trace {
 			time.Sleep(d)
 		}
 		vclock.Store(int64(s.now()))
-		synctest.Wait()
-		s.snapshot("horizon")
+		if !p.NoQuiesce {
+			synctest.Wait()
+			s.snapshot("horizon")
+		}
 		s.teardown()
 	})
 	return tr
@@ -705,4 +750,60 @@ func firstLibFrame(stack string) string {
 		}
 	}
 	return "?"
+}
+
+// startHammer launches the concurrent API callers of a Hammer.
+func (s *Sim) startHammer(h *Hammer) {
+	for g := 0; g < h.N; g++ {
+		s.wg.Add(1)
+		go func(g int) {
+			defer s.wg.Done()
+			s.sleepI(h.From + time.Duration(g))
+			n := 0
+			for s.now() < h.To && !s.tearing.Load() && n < 400 {
+				o := s.current(h.Inst)
+				if o != nil && len(h.Calls) > 0 {
+					switch h.Calls[(n+g)%len(h.Calls)] {
+					case "isleader":
+						_ = o.el.IsLeader()
+					case "leaderid":
+						_ = o.el.LeaderID()
+					case "token":
+						_ = o.el.Token()
+					case "status":
+						_ = o.el.Status()
+					case "validate":
+						ctx, c := context.WithTimeout(context.Background(), s.plan.H)
+						_, _ = o.el.ValidateToken(ctx)
+						c()
+					case "validateordemote":
+						ctx, c := context.WithTimeout(context.Background(), s.plan.H)
+						_ = o.el.ValidateTokenOrDemote(ctx)
+						c()
+					case "register":
+						s.registerCallbacks(o)
+					}
+					s.mu.Lock()
+					s.tr.HammerCalls++
+					s.mu.Unlock()
+				}
+				n++
+				s.sleepI(h.Gap)
+			}
+		}(g)
+	}
+}
+
+// disconnectedCB reads the (deprecated, getter-less) DisconnectedCB option of a
+// connection under the connection's own mutex, as nats.go does when it
+// dispatches the callback; the library sets it with SetDisconnectHandler.
+func disconnectedCB(nc *nats.Conn) nats.ConnHandler {
+	f, ok := reflect.TypeOf(nats.Conn{}).FieldByName("mu")
+	if !ok {
+		return nc.Opts.DisconnectedCB
+	}
+	mu := (*sync.RWMutex)(unsafe.Add(unsafe.Pointer(nc), f.Offset))
+	mu.RLock()
+	defer mu.RUnlock()
+	return nc.Opts.DisconnectedCB
 }
